@@ -72,6 +72,9 @@ class Events:
         path = c['path']
         rpath = (c.get('resolved') or {}).get('path', path)
         sp = strip_generics(path)
+        st0 = _self_ty(c)
+        if (path in W_PATHS or rpath in W_PATHS) and ('BufWriter<' in st0 or 'LineWriter<' in st0) and 'std::fs::File' in st0:
+            evs.append(dict(ev='W', sub='D', fallible=True, callee=sp, buffered=True))
         if (path in W_PATHS or rpath in W_PATHS) and is_file_callee(c):
             sub = 'D'
             cs = self._role('checksum-role')
